@@ -4,15 +4,13 @@ from tools import dfir, vlib
 
 class C23(dfir.DfirSpec):
     tag = "C23"
-    want_flat = True
     props_vo = "theories/Props/C23.vo"
-    theorems = ["C23_handoff_complete", "C23_same_tick_delivery"]
+    theorems = ["C23_handoff_complete", "C23_same_tick_delivery", "C23_partitioned_eq_flat", "C23_transparency"]
     modes = ("ticks", "avail")
-    level = "other"
-    explanation = 'Not category proof: the whole-program theorem interp_partitioned = denote_flat (induction along subgraph_toposort over a WellFormed partitioned graph, merging blocks across handoffs) is not proved; proved are the per-handoff statements C23_same_tick_delivery and C23_handoff_complete. The order of subgraphs is taken from the real partitioner (C18).'
+    level = "proof"
     assumptions = [
-        "denotation of the flat graph = the same Coq interpreter run on one subgraph holding every operator in "
-        "topological order with same-tick handoffs as plain wires (lowered by tools/dfir.py from the real meta graph)",
+        "denotation of the flat graph = the same Coq interpreter run on one block holding every operator in the same "
+        "order with the handoffs as plain wires (ModelFlat.flat_of, computed in Coq from the lowered real partition)",
         "that all producers of a handoff run before its consumer is property C18 (partitioner), not proved here",
         "inside a subgraph operators are applied to complete per-tick lists (eager drain of blocking inputs is "
         "part of the list-level operator transcription)",
@@ -29,8 +27,8 @@ class C23(dfir.DfirSpec):
         if self.failed(res):
             return 3
         p = dfir.catalogue()[case["prog"]]
-        return "c23_chk %s prog_%d flat_%d %s %s %s %s" % (
-            "true" if case["mode"] == "avail" else "false", case["prog"], case["prog"],
+        return "c23_chk %s prog_%d %s %s %s %s" % (
+            "true" if case["mode"] == "avail" else "false", case["prog"],
             dfir.g_bools(p.sinks), dfir.g_hist(case["hist"]), dfir.g_outs(res["outs"]),
             "[" + "; ".join(str(x) for x in res["obs"]) + "]")
 
